@@ -1241,9 +1241,19 @@ fn run_dig(c: &Case, buf: &mut String) {
                 .unwrap_or_else(|_| "PANIC".to_string());
                 out(buf, &format!("LOADSRC {i} {carried}"));
                 let loaded = catch_unwind(AssertUnwindSafe(|| file.load_test(i).ok()));
-                let by_name = catch_unwind(AssertUnwindSafe(|| file.load_test_by_name(&t.name).ok()));
+                // selection by name is selection of the first test with that label: the same test or the same error
+                // (compared as Debug text plus the rendered report, source snippet and labels included)
+                let err_text = |e: digital_test_runner::errors::LoadTestError| {
+                    let dbg = format!("{e:?}");
+                    let mut text = String::new();
+                    let handler = miette::GraphicalReportHandler::new_themed(miette::GraphicalTheme::unicode_nocolor());
+                    let report = miette::Report::new(e);
+                    let _ = handler.render_report(&mut text, report.as_ref());
+                    format!("{dbg}\n{text}")
+                };
+                let by_name = catch_unwind(AssertUnwindSafe(|| file.load_test_by_name(&t.name).map_err(err_text)));
                 let first_with_name = file.test_cases.iter().position(|x| x.name == t.name).unwrap();
-                let expected_by_name = catch_unwind(AssertUnwindSafe(|| file.load_test(first_with_name).ok()));
+                let expected_by_name = catch_unwind(AssertUnwindSafe(|| file.load_test(first_with_name).map_err(err_text)));
                 let verdict = match (&direct, &loaded) {
                     (Ok(a), Ok(b)) => {
                         if a == b {
